@@ -45,6 +45,7 @@ def plan(tier, seed):
         + [{"kind": "seq", "shard": i, "of": N_SEQ_UNITS, "n": nseq} for i in range(N_SEQ_UNITS)]
         + [{"kind": "corpus", "shard": i, "of": N_CORPUS_UNITS} for i in range(N_CORPUS_UNITS)]
         + [{"kind": "introspect"}]
+        + [{"kind": "toggles", "shard": i, "of": 4} for i in range(4)]
     )
 
 
@@ -577,10 +578,91 @@ def run_introspect(acc):
     acc.case(desc=("introspection",), nontrivial=True, cls="completeness")
 
 
+# --------------------------------------------------------- driver 4: a kept ancestor, its content replaced, the child re-accessed
+TOGGLE_ATTR = {"chart_title": "has_title", "axis_title": "has_title"}  # child accessor -> the ancestor's switch (default 'has_' + accessor)
+FILL_TOGGLES = ("color", "fore_color")  # reached through a fill: the fill is switched to background()/solid() in between
+
+
+def _hops(path):
+    parts, depth, cur = [], 0, ""
+    for ch in path:
+        depth += ch in "([" and 1 or ch in ")]" and -1 or 0
+        if ch == "." and depth == 0:
+            parts.append(cur)
+            cur = ""
+        else:
+            cur += ch
+    return parts + [cur]
+
+
+def run_toggles(unit, tier, acc):
+    """A caller keeps an object (a plot, a chart, an axis, a line, a font), assigns through one of its children, switches that
+    child off and on again through the kept object (has_data_labels / has_title / has_legend / has_*_gridlines False then True;
+    for colours the fill set to background() then re-accessed), re-accesses the child FROM THE KEPT OBJECT and assigns again: the
+    second value must be read back, in memory and after save + re-open."""
+    from vlib import env
+
+    t = T()
+    for ri, row in enumerate(t.ROWS):
+        if ri % unit["of"] != unit["shard"]:
+            continue
+        hops = _hops(row.path)
+        vals = [v for v, c in ok_values(row) if v is not None]
+        if len(hops) < 3 or len(vals) < 2:
+            continue
+        for k in range(len(hops) - 1, 1, -1):
+            child = hops[k].split("(")[0].split("[")[0]
+            toggle = TOGGLE_ATTR.get(child, "has_" + child)
+            prs = new_deck()
+            try:
+                s = fresh_slide(prs, row, env.rng("C09tog", row.id))
+                parent = resolve(".".join(hops[:k]), prs, s)
+            except Exception:  # noqa
+                break
+            rest = ".".join(hops[k:])
+            by_fill = child in FILL_TOGGLES and hasattr(parent, "fill")
+            sw = getattr(type(parent), toggle, None)
+            if not by_fill and not (isinstance(sw, property) and sw.fset is not None):
+                continue
+            wit = {"mode": "toggle", "row": row.id, "kept": ".".join(hops[:k]), "switch": "fill" if by_fill else toggle}
+            v1, v2 = vals[0], vals[-1]
+            try:
+                row.set(eval("x." + rest, {"x": parent}), v1)  # noqa: S307 - table paths
+                if by_fill:
+                    parent.fill.background()
+                else:
+                    setattr(parent, toggle, False)
+                    setattr(parent, toggle, True)
+                obj2 = eval("x." + rest, {"x": parent})  # noqa: S307
+                row.set(obj2, v2)
+                got = read(row, obj2)
+            except Exception as e:  # noqa  (a switch that cannot be turned off on this fixture, a child that is gone: not this driver's business)
+                acc.count("toggle_scenarios_not_applicable:%s" % type(e).__name__)
+                break
+            acc.count("toggle_scenarios")
+            acc.hit("toggle:" + ("fill" if by_fill else toggle))
+            acc.case(desc=("toggle", row.id, wit["switch"]), nontrivial=True, cls="kept-ancestor")
+            want = row.expect(v2)
+            if not same(row.cmp, want, got):
+                acc.violation("readback-after-switch:" + row.id, "%s = %s, assigned through a child re-accessed from the kept %s after %s was switched off and on, reads %s" % (row.id, short(v2), wit["kept"], wit["switch"], short(got)), wit)
+            elif row.persist:
+                try:
+                    prs2 = reopen(prs)
+                    got2 = read(row, resolve(row.path, prs2, prs2.slides[len(prs.slides) - 1]))
+                except Exception as e:  # noqa
+                    acc.violation("reopen-after-switch:" + row.id, "%s: save/re-open after the switch scenario raised %s: %s" % (row.id, type(e).__name__, str(e)[:100]), wit)
+                    break
+                if not same(row.cmp, want, got2):
+                    acc.violation("reopen-after-switch:" + row.id, "%s = %s (assigned after %s was switched off and on through the kept %s) reads %s after save and re-open" % (row.id, short(v2), wit["switch"], wit["kept"], short(got2)), wit)
+            break
+
+
 def run_unit(unit, tier, seed, acc):
     k = unit["kind"]
     if k == "introspect":
         return run_introspect(acc)
+    if k == "toggles":
+        return run_toggles(unit, tier, acc)
     {"rows": run_rows, "seq": run_seq_unit, "corpus": run_corpus}[k](unit, tier, acc)
 
 
